@@ -5,6 +5,7 @@ import NodisVerif.Proofs.C10Rename
 import NodisVerif.Proofs.C10Scan
 import NodisVerif.Proofs.C10Gc
 import NodisVerif.Proofs.C10Examples
+import NodisVerif.Proofs.C10ZAddPairs
 /-
   C10 — Expiry: a key is visible before its deadline and to no command at or after it.
 
@@ -1084,6 +1085,23 @@ theorem expired_invisible_zaddGT (s : MState) (now : Int) (k m : Bytes) (sc : F6
     (Api.zaddGT s now k m sc).2 = (Api.zaddGT (purge now s) now k m sc).2 ∧
     Sim now (Api.zaddGT s now k m sc).1 (Api.zaddGT (purge now s) now k m sc).1 :=
   invisible_of_resp (resp_zaddCmp now k DsZSet.zAddGT m sc) s hs
+/-- the ZADD command's transaction (`zAddPairs`, work package Z: all pairs, every option set): an expired record that
+    is still indexed is invisible to it - same reply, simulating stores - as for ZAdd -/
+theorem expired_invisible_zaddPairs (s : MState) (now : Int) (k : Bytes) (nx xx gt lt ch : Bool)
+    (pairs : List (Bytes × F64)) (hne : pairs ≠ []) (hs : AList.Sorted s.index) :
+    (Api.zaddPairs s now k nx xx gt lt ch pairs).2 = (Api.zaddPairs (purge now s) now k nx xx gt lt ch pairs).2 ∧
+    Sim now (Api.zaddPairs s now k nx xx gt lt ch pairs).1 (Api.zaddPairs (purge now s) now k nx xx gt lt ch pairs).1 :=
+  invisible_of_resp (resp_zaddPairs now k nx xx gt lt ch pairs hne) s hs
+/-- ZADD XX ... on a key with no visible record (absent or expired): reply 0 -/
+theorem zaddPairs_xx_absent (s : MState) (now : Int) (k : Bytes) (nx gt lt ch : Bool) (pairs : List (Bytes × F64))
+    (hne : pairs ≠ []) (h : live s now k = none) (hs : AList.Sorted s.index) :
+    (Api.zaddPairs s now k nx true gt lt ch pairs).2 = .int 0 := by
+  rw [zaddPairs_eq s now k nx true gt lt ch pairs hne]; exact writeCmd_absent h hs _ _
+/-- hypotheses satisfiable: the empty store, two pairs -/
+example : AList.Sorted ({} : MState).index ∧ live ({} : MState) 0 [107] = none ∧
+    ([(([97] : Bytes), (0x4014000000000000 : F64)), ([98], 0x3FF0000000000000)] : List (Bytes × F64)) ≠ [] := by
+  refine ⟨?_, rfl, by simp⟩
+  simp [AList.Sorted]
 /-- ZADD LT/GT on a key with no visible record (absent or expired): reply 0 -/
 theorem zaddCmp_absent (f : ZSet → Bytes → F64 → ZSet × Bool) (s : MState) (now : Int) (k m : Bytes) (sc : F64)
     (h : live s now k = none) (hs : AList.Sorted s.index) : (Api.zaddCmp f s now k m sc).2 = .int 0 := by
